@@ -456,6 +456,27 @@ fn layered_sweep<A: Arith>(name: &str, thorough: bool) -> Acc {
                 }
             }
         }
+        // check degrees just past 8, 16, 32, 64 (thorough 128, 256): one deviating position in a background
+        for d in if thorough { vec![9usize, 16, 17, 31, 32, 33, 34, 63, 64, 65, 129, 257] } else { vec![9usize, 17, 32, 33, 34, 65] } {
+            let dests: Vec<usize> = (0..d).map(|i| d + 1 - i).collect();
+            for &bgm in &[0.0, 127.0, -100.0, 5.0] {
+                for &bgv in &[40.0, 381.0, -128.0, -7.0] {
+                    for &p in &[0usize, 1, d / 2, d.saturating_sub(33), d.saturating_sub(32), d - 1] {
+                        for &dm in &[-127.0, 99.0, 1.0] {
+                            for &dv in &[-381.0, 10.0, 0.0, -40.0] {
+                                let mut old = vec![bgm; d];
+                                old[p] = dm;
+                                let mut vars = vec![bgv; d + 2];
+                                vars[dests[p]] = dv;
+                                // a second deviating variable at the far end
+                                vars[dests[d - 1 - p.min(d - 1)]] = -dv - 3.0;
+                                cases.push((dests.clone(), old, vars));
+                            }
+                        }
+                    }
+                }
+            }
+        }
     } else {
         let g: Vec<f64> = vec![0.0, 0.7, -2.3, 5.0, -11.0, 1e-3];
         let k = g.len() as u64;
@@ -585,7 +606,7 @@ pub fn run(run: &Run) -> i32 {
         run,
         acc,
         Coverage {
-            rule: "quantiser: every k/16 for |k| <= 2200 with both neighbours (all half-integer boundaries of 8x), +-0, +-inf, NaN, huge and subnormal values, x 24 types; 8-bit variable rule: EVERY (input, m1) and (input, m1, m2) in [-127,127], and degrees 3..200 by count profile over 3-value sub-alphabets of {-127,-116,-100,-1,0,1,100,116,127} x 9 inputs, two orderings; float variable rule: full power of a 7-value grid for degrees 1..5(6); layered primitive vs flooding rule on extrinsics: 8-bit degree 2 over 15 message values x 52 variable values inside |v| <= 381 plus 26 large values up to 127*201 = 25527 (variables of degree up to 200), degree 3 over grids, degrees 4..8 by profile, float degrees 2..3(4) over 6-value grids; variables not on the row must be untouched. Built with overflow checks; every call guarded. Non-trivial = saturating or boundary case (quantiser, 8-bit variable rule) / completed comparison (layered).".into(),
+            rule: "quantiser: every k/16 for |k| <= 2200 with both neighbours (all half-integer boundaries of 8x), +-0, +-inf, NaN, huge and subnormal values, x 24 types; 8-bit variable rule: EVERY (input, m1) and (input, m1, m2) in [-127,127], and degrees 3..200 by count profile over 3-value sub-alphabets of {-127,-116,-100,-1,0,1,100,116,127} x 9 inputs, two orderings; float variable rule: full power of a 7-value grid for degrees 1..5(6); layered primitive vs flooding rule on extrinsics: 8-bit degree 2 over 15 message values x 52 variable values inside |v| <= 381 plus 26 large values up to 127*201 = 25527 (variables of degree up to 200), degree 3 over grids, degrees 4..8 by profile and 9, 17, 32, 33, 34, 65 (thorough to 257) with one or two deviating positions, float degrees 2..3(4) over 6-value grids; variables not on the row must be untouched. Built with overflow checks; every call guarded. Non-trivial = saturating or boundary case (quantiser, 8-bit variable rule) / completed comparison (layered).".into(),
             exhaustive: true,
             extra: serde_json::Map::new(),
             graph: None,
